@@ -124,7 +124,7 @@ theorem pick_recent (k : List (Option Nat)) (l : List M) (c : Nat) (hk : k.lengt
 /-- what the forwarding task of `f` delivered, in terms of what it read -/
 def GotOk (dead : List Nat) (f : Fwd M O) : Prop :=
   if f.ended then
-    ∃ init m o, f.readMsgs = init ++ [m] ∧ f.conv m = some o ∧ f.actor ∈ dead ∧
+    ∃ init m, f.readMsgs = init ++ [m] ∧ f.actor ∈ dead ∧
       f.got = init.filterMap f.conv
   else f.got = f.readMsgs.filterMap f.conv
 
@@ -159,8 +159,8 @@ theorem GotOk.mono {dead dead' : List Nat} {f : Fwd M O} (hd : ∀ a ∈ dead, a
   split
   · rename_i he
     rw [if_pos he] at h
-    obtain ⟨i, m, o, h1, h2, h3, h4⟩ := h
-    exact ⟨i, m, o, h1, h2, hd _ h3, h4⟩
+    obtain ⟨i, m, h1, h3, h4⟩ := h
+    exact ⟨i, m, h1, hd _ h3, h4⟩
   · rename_i he
     rw [if_neg he] at h; exact h
 
@@ -295,14 +295,19 @@ theorem FwdOk.step {cap : Nat} {log pubs : List M} {dead : List Nat} {f : Fwd M 
         dsimp only
         split
         · rename_i hc
-          refine h.read hlive hm f.got f.ended ?_
-          simp [GotOk, hlive, hgot, List.filterMap_append, hc]
+          split
+          · rename_i hd
+            refine h.read hlive hm f.got true ?_
+            simp only [GotOk, ↓reduceIte]
+            exact ⟨f.readMsgs, m, rfl, by simpa using hd, hgot⟩
+          · refine h.read hlive hm f.got f.ended ?_
+            simp [GotOk, hlive, hgot, List.filterMap_append, hc]
         · rename_i o hc
           split
           · rename_i hd
             refine h.read hlive hm f.got true ?_
             simp only [GotOk, ↓reduceIte]
-            exact ⟨f.readMsgs, m, o, rfl, hc, by simpa using hd, hgot⟩
+            exact ⟨f.readMsgs, m, rfl, by simpa using hd, hgot⟩
           · refine h.read hlive hm (f.got ++ [o]) f.ended ?_
             simp [GotOk, hlive, hgot, List.filterMap_append, hc]
 
@@ -349,7 +354,7 @@ theorem FwdOk.gotSub {cap : Nat} {log pubs : List M} {dead : List Nat} {f : Fwd 
   have := h.hGot
   unfold GotOk at this
   split at this
-  · obtain ⟨i, m, o, h1, _, _, h4⟩ := this
+  · obtain ⟨i, m, h1, _, h4⟩ := this
     rw [h4, h1, List.filterMap_append]
     exact List.sublist_append_left _ _
   · rw [this]; exact List.Sublist.refl _
